@@ -121,11 +121,11 @@ def _check_main(run, P):
     if not hit or clean:
         raise AnalysisError("C15 positive control failed: taint engine is broken")
 
-    _globals(run, P)
-    _carried(run, P, T)
-    _memoised(run, P)
-    _inputs(run, P, P2)
-    _plan(run, P)
+    run.do(_globals, run, P)
+    run.do(_carried, run, P, T)
+    run.do(_memoised, run, P)
+    run.do(_inputs, run, P, P2)
+    run.do(_plan, run, P)
 
 
 # {{{ interpreter: the plan is built in a fixed order
